@@ -1737,3 +1737,355 @@ def run_C16(ctx):
 
 
 register("C16", ["Guard.Properties.C16"], run_C16, needs_cli=True)
+
+
+# =============================================================================== C12
+
+def py_combine(reps):
+    """union of canonical reports in rules-file order (FileReport::combine starting from the default report)"""
+    st = "SKIP"
+    out = {"compliant": set(), "not_applicable": set(), "not_compliant": []}
+    for r in reps:
+        a, b = st, r["status"]
+        st = "FAIL" if a == "FAIL" else (("FAIL" if b == "FAIL" else "PASS") if a == "PASS" else b)
+        out["compliant"] |= set(r["compliant"])
+        out["not_applicable"] |= set(r["not_applicable"])
+        out["not_compliant"] += r["not_compliant"]
+    return {"status": st, "compliant": sorted(out["compliant"]), "not_applicable": sorted(out["not_applicable"]),
+            "not_compliant": out["not_compliant"]}
+
+
+CAPTURE_RULE = "rule cap {\nlet c = count(%n)\nm[ n | x exists ] !empty\n%c == 2\n}\n"
+
+
+def run_C12(ctx):
+    res = Result("batches of 1..3 rules files (sharing variable, rule and key-capture names on purpose) x 1..4 documents, real "
+                 "binary: structured and plain batch vs every pair validated alone, every order of the -r / -d arguments, "
+                 "directories with -a and -m (controlled mtimes), --payload lists; test files with n cases vs the cases "
+                 "alone; non-trivial = batch with >= 2 pairs that evaluated")
+    n = 900 if ctx.thorough() else 70
+    rng = random.Random(ctx.seed)
+    jobs = []
+    scen = []
+
+    def add(job):
+        jobs.append(job)
+        return len(jobs) - 1
+    for i in range(n):
+        g = gen.G(ctx.seed * 1700033 + i, core=True)
+        ndocs = rng.choice([1, 2, 3, 4])
+        docs = []
+        for k in range(ndocs):
+            d = gen.G(ctx.seed * 31 + i * 7 + k).doc()
+            d["m"] = {"a": {"x": 1}, "b": {"x": 2}} if rng.random() < 0.7 else {"a": {"x": 1}}
+            docs.append(d)
+        nr = rng.choice([1, 2, 3])
+        rfiles = []
+        for k in range(nr):
+            txt = g.rules_file(docs[0], depth=2, cfn=False)
+            if rng.random() < 0.6:
+                txt += CAPTURE_RULE
+            rfiles.append(txt)
+        files = {}
+        for k, t in enumerate(rfiles):
+            files["rd/r%d.guard" % k] = t
+        for k, d in enumerate(docs):
+            files["dd/d%d.json" % k] = json.dumps(d)
+        sflags = ["--structured", "-o", "json", "-S", "none"]
+        rargs = lambda order: sum([["-r", "{DIR}/rd/r%d.guard" % k] for k in order], [])
+        dargs = lambda order: sum([["-d", "{DIR}/dd/d%d.json" % k] for k in order], [])
+        s = {"rfiles": rfiles, "docs": docs}
+        s["batch"] = add({"argv": ["validate"] + rargs(range(nr)) + dargs(range(ndocs)) + sflags, "files": files})
+        s["plain"] = add({"argv": ["validate"] + rargs(range(nr)) + dargs(range(ndocs)) + ["-S", "all"], "files": files})
+        s["single"] = {(a, b): add({"argv": ["validate"] + rargs([a]) + dargs([b]) + sflags, "files": files})
+                       for a in range(nr) for b in range(ndocs)}
+        ro, do = list(range(nr)), list(range(ndocs))
+        rng.shuffle(ro)
+        rng.shuffle(do)
+        s["perm"] = add({"argv": ["validate"] + rargs(ro) + dargs(do) + sflags, "files": files})
+        s["perm_r"] = ro
+        s["dir_a"] = add({"argv": ["validate", "-r", "{DIR}/rd", "-d", "{DIR}/dd", "-a"] + sflags, "files": files})
+        mt = {name: 1700000000 + rng.randrange(100000) for name in files}
+        s["dir_m"] = add({"argv": ["validate", "-r", "{DIR}/rd", "-d", "{DIR}/dd", "-m"] + sflags, "files": files, "mtimes": mt})
+        s["mt"] = mt
+        s["payload"] = add({"argv": ["validate", "--payload"] + sflags, "files": {},
+                            "stdin": json.dumps({"rules": rfiles, "data": [json.dumps(d) for d in docs]})})
+        scen.append(s)
+    outs = vlib.run_cli_many(jobs)
+
+    def reports(o):
+        if o["code"] not in (0, 19, 5):
+            return None
+        try:
+            return {os.path.basename(r["name"]): canon_impl_report(r) for r in json.loads(o["stdout"])}
+        except Exception:
+            return None
+
+    def strip_loc(rep):
+        return rep
+
+    for si, s in enumerate(scen):
+        res.evaluations += 1
+        nr, nd = len(s["rfiles"]), len(s["docs"])
+        info = {"rules": s["rfiles"], "data": [json.dumps(d) for d in s["docs"]]}
+        singles = {k: reports(outs[j]) for k, j in s["single"].items()}
+        single_codes = {k: outs[j]["code"] for k, j in s["single"].items()}
+        batch = reports(outs[s["batch"]])
+        if batch is None or any(v is None for v in singles.values()):
+            res.stats["c12-batch-error"] += 1
+            # an erroring pair must make the batch error too (no silent success)
+            if any(c == 255 for c in single_codes.values()) and outs[s["batch"]]["code"] in (0, 19):
+                res.judge_failures.append(dict(info, what="a pair errors when validated alone but the batch exits %s" % outs[s["batch"]]["code"], **{"class": "c12-error"}))
+            continue
+        if nr * nd >= 2:
+            res.nontrivial.add(si)
+        res.stats["c12-pairs:%d" % (nr * nd)] += 1
+
+        def expected(order):
+            return {"d%d.json" % b: py_combine([singles[(a, b)]["d%d.json" % b] for a in order if singles[(a, b)] and "d%d.json" % b in singles[(a, b)]])
+                    for b in range(nd)}
+        exp = expected(range(nr))
+        if batch != exp:
+            res.judge_failures.append(dict(info, what="batch report differs from the union of the pairs validated alone", batch=batch, pairs=exp, **{"class": "c12-batch"}))
+        pm = reports(outs[s["perm"]])
+        if pm != expected(s["perm_r"]):
+            res.judge_failures.append(dict(info, what="giving the files in another order changes a pair's result", **{"class": "c12-order"}))
+        for key in ("dir_a", "dir_m"):
+            dr = reports(outs[s[key]])
+            if dr is None:
+                res.judge_failures.append(dict(info, what="directory run %s failed: exit %s %s" % (key, outs[s[key]]["code"], outs[s[key]]["stderr"][:200]), **{"class": "c12-dir"}))
+                continue
+            order = list(range(nr)) if key == "dir_a" else sorted(range(nr), key=lambda k: s["mt"]["rd/r%d.guard" % k])
+            if dr != expected(order):
+                res.judge_failures.append(dict(info, what="walking directories (%s) changes a pair's result" % key, got=dr, want=expected(order), **{"class": "c12-dir"}))
+        # payload: data names are DATA_STDIN[i]
+        po = outs[s["payload"]]
+        try:
+            pl = [canon_impl_report(r) for r in json.loads(po["stdout"])]
+            want = [exp["d%d.json" % b] for b in range(nd)]
+
+            def noloc(r):
+                return json.loads(json.dumps(r))
+            if [noloc(x) for x in pl] != [noloc(x) for x in want]:
+                res.judge_failures.append(dict(info, what="--payload batch differs from the pairs validated alone", **{"class": "c12-payload"}))
+        except Exception as e:
+            res.judge_failures.append(dict(info, what="--payload output unreadable (%s), exit %s" % (e, po["code"]), **{"class": "c12-payload"}))
+        # failure iff some pair fails
+        any_fail = any(c == 19 for c in single_codes.values())
+        all_ok = all(c in (0, 19) for c in single_codes.values())
+        if all_ok and (outs[s["batch"]]["code"] == 19) != any_fail:
+            res.judge_failures.append(dict(info, what="batch exit %s but some pair FAILs = %s" % (outs[s["batch"]]["code"], any_fail), **{"class": "c12-exit"}))
+        # plain: (data, rules file / rule, status) triples
+        import re as _re
+        trip = sorted(_re.findall(r"^(r\d+\.guard/\S+)\s+(PASS|FAIL|SKIP)$", outs[s["plain"]]["stdout"], _re.M))
+        want = []
+        for (a, b), rep in singles.items():
+            r_ = rep["d%d.json" % b]
+            for nm in r_["compliant"]:
+                want.append(("r%d.guard/%s" % (a, nm), "PASS"))
+            for nm in r_["not_applicable"]:
+                want.append(("r%d.guard/%s" % (a, nm), "SKIP"))
+            for c in r_["not_compliant"]:
+                if "Rule" in c:
+                    want.append(("r%d.guard/%s" % (a, c["Rule"]["name"]), "FAIL"))
+        # a name defined several times has one line in the summary table but may sit under two headings
+        # of the structured report: compare names, and statuses as a subset
+        if (not set(trip) <= set(want) or {t[0] for t in trip} != {w[0] for w in want}) and "default" not in json.dumps(want):
+            res.judge_failures.append(dict(info, what="plain batch summary %s differs from the pairs alone %s" % (sorted(set(trip)), sorted(set(want))), **{"class": "c12-plain"}))
+        if si < 2:
+            res.add_sample({"rules_files": nr, "documents": nd, "batch_status": {k: v["status"] for k, v in batch.items()}})
+    return res
+
+
+register("C12", ["Guard.Properties.C12"], run_C12, needs_cli=True)
+
+
+# =============================================================================== C07
+
+def partition_of_report(rep):
+    return {"PASS": sorted(set(map(base_rule_name, rep["compliant"]))),
+            "SKIP": sorted(set(map(base_rule_name, rep["not_applicable"]))),
+            "FAIL": sorted({base_rule_name(c["Rule"]["name"]) for c in rep["not_compliant"] if "Rule" in c}),
+            "status": rep["status"]}
+
+
+def count_messages(c):
+    if "Rule" in c:
+        return sum(count_messages(x) for x in c["Rule"]["checks"])
+    if "Disjunctions" in c:
+        return sum(count_messages(x) for x in c["Disjunctions"]["checks"])
+    return 1
+
+
+def yaml11_eq(j, y):
+    """equality of a JSON value and the same data re-read by PyYAML (YAML 1.1): exponent floats without
+    a dot (`5e-324`) and a few keywords come back as strings there"""
+    if isinstance(j, dict) and isinstance(y, dict):
+        return set(map(str, j)) == set(map(str, y)) and all(yaml11_eq(v, y.get(k, y.get(str(k)))) for k, v in j.items())
+    if isinstance(j, list) and isinstance(y, list):
+        return len(j) == len(y) and all(yaml11_eq(a, b) for a, b in zip(j, y))
+    if isinstance(j, float) and isinstance(y, str):
+        try:
+            return float(y) == j
+        except ValueError:
+            return False
+    if isinstance(j, bool) or isinstance(y, bool):
+        return j is y or (isinstance(j, str) and isinstance(y, bool) and j.lower() in ("true", "false", "yes", "no", "on", "off", "y", "n"))
+    if isinstance(j, (int, float)) and isinstance(y, (int, float)):
+        return j == y
+    return j == y
+
+
+def run_C07(ctx):
+    res = Result("random rule files (distinct rule names) x documents with JSON-compatible scalars, rendered through the full "
+                 "cross product: summary table (-S all|pass|fail|skip|none, -v, -p), -o json / yaml with and without "
+                 "--structured, junit, sarif, stdin data, --payload, and the library call `run_checks`; the PASS/FAIL/SKIP "
+                 "partition, the file status and the exit code must coincide, JSON/YAML/XML must be well formed and denote "
+                 "the same data; non-trivial = row whose reference rendering evaluated")
+    import yaml as _yaml
+    import xml.etree.ElementTree as ET
+    import re as _re
+    n = 1200 if ctx.thorough() else 90
+    rows = []
+    jobs = []
+
+    def add(job):
+        jobs.append(job)
+        return len(jobs) - 1
+    for i in range(n):
+        g = gen.G(ctx.seed * 1900037 + i)
+        d = g.doc()
+        rules = distinct_names_program(g, d, 1)[0]
+        if len(set(_re.findall(r"^rule (\w+)", rules, _re.M))) != len(_re.findall(r"^rule (\w+)", rules, _re.M)):
+            continue
+        data = json.dumps(d)
+        files = {"r.guard": rules, "d.json": data}
+        base = ["validate", "-r", "{DIR}/r.guard", "-d", "{DIR}/d.json"]
+        row = {"rules": rules, "data": data, "v": {}}
+        for key, extra in [("S-all", ["-S", "all"]), ("default", []), ("S-none", ["-S", "none"]), ("S-pass", ["-S", "pass"]),
+                           ("S-fail", ["-S", "fail"]), ("S-skip", ["-S", "skip"]), ("verbose", ["-S", "all", "-v"]),
+                           ("print-json", ["-S", "all", "-p"]), ("o-json", ["-S", "all", "-o", "json"]),
+                           ("o-yaml", ["-S", "all", "-o", "yaml"]),
+                           ("s-json", ["--structured", "-o", "json", "-S", "none"]),
+                           ("s-yaml", ["--structured", "-o", "yaml", "-S", "none"]),
+                           ("s-junit", ["--structured", "-o", "junit", "-S", "none"]),
+                           ("s-sarif", ["--structured", "-o", "sarif", "-S", "none"])]:
+            row["v"][key] = add({"argv": base + extra, "files": files})
+        row["v"]["stdin"] = add({"argv": ["validate", "-r", "{DIR}/r.guard", "-S", "all"], "files": files, "stdin": data})
+        row["v"]["payload"] = add({"argv": ["validate", "--payload", "-S", "all"], "files": {}, "stdin": json.dumps({"rules": [rules], "data": [data]})})
+        row["v"]["payload-json"] = add({"argv": ["validate", "--payload", "--structured", "-o", "json", "-S", "none"], "files": {},
+                                        "stdin": json.dumps({"rules": [rules], "data": [data]})})
+        rows.append(row)
+    outs = vlib.run_cli_many(jobs)
+    lib = ctx.hp.map([{"id": i, "op": "case", "rules": r["rules"], "data": r["data"], "report": True} for i, r in enumerate(rows)])
+
+    def table(stdout):
+        part = {"PASS": [], "FAIL": [], "SKIP": []}
+        for nm, st in _re.findall(r"^\S+?/(\S+)\s+(PASS|FAIL|SKIP)$", stdout, _re.M):
+            part[st].append(nm)
+        m = _re.search(r"Status = (PASS|FAIL|SKIP)", stdout)
+        return {k: sorted(set(v)) for k, v in part.items()}, (m.group(1) if m else None)
+
+    for ri, row in enumerate(rows):
+        res.evaluations += 1
+        o = {k: outs[j] for k, j in row["v"].items()}
+        info = {"rules": row["rules"], "data": row["data"]}
+        ref = o["s-json"]
+        if ref["code"] not in (0, 19):
+            res.stats["c07-row-error:%s" % ref["code"]] += 1
+            codes = {k: v["code"] for k, v in o.items()}
+            if any(c in (0, 19) for c in codes.values()) and not all(c in (0, 19) for c in codes.values()):
+                # an evaluation error must be an error in every rendering
+                if ref["code"] == 255:
+                    res.judge_failures.append(dict(info, what="evaluation error in structured mode but not in %s" % sorted(k for k, c in codes.items() if c in (0, 19)), **{"class": "c07-error"}))
+            continue
+        try:
+            rep = json.loads(ref["stdout"])[0]
+        except Exception as e:
+            res.judge_failures.append(dict(info, what="--structured -o json is not well-formed JSON: %s" % e, **{"class": "c07-json"}))
+            continue
+        P = partition_of_report(rep)
+        res.nontrivial.add(ri)
+        bad = []
+        want_exit = 19 if P["status"] == "FAIL" else 0
+        for k, v in o.items():
+            if v["code"] != want_exit:
+                bad.append("exit code %s under `%s`, %s expected from file status %s" % (v["code"], k, want_exit, P["status"]))
+        # summary tables
+        for k in ("S-all", "verbose", "print-json", "o-json", "o-yaml", "stdin", "payload"):
+            part, st = table(o[k]["stdout"])
+            if {x: part[x] for x in ("PASS", "FAIL", "SKIP")} != {x: P[x] for x in ("PASS", "FAIL", "SKIP")} or st != P["status"]:
+                bad.append("summary table under `%s` gives %s / %s, structured report %s" % (k, part, st, P))
+        for k, sel in (("S-pass", "PASS"), ("S-fail", "FAIL"), ("S-skip", "SKIP"), ("default", "FAIL")):
+            part, st = table(o[k]["stdout"])
+            if part[sel] != P[sel] or any(part[x] for x in part if x != sel):
+                bad.append("summary table under `%s` shows %s, expected only %s = %s" % (k, part, sel, P[sel]))
+        if o["S-none"]["stdout"].strip():
+            bad.append("-S none printed something: %r" % o["S-none"]["stdout"][:100])
+        # non-structured -o json / -o yaml print the report document after the table
+        try:
+            js = o["o-json"]["stdout"]
+            doc = json.loads(js[js.index("\n{"):])
+            if partition_of_report(doc) != P:
+                bad.append("-o json document disagrees with --structured: %s vs %s" % (partition_of_report(doc), P))
+        except Exception as e:
+            bad.append("-o json did not contain a JSON document: %s" % e)
+        try:
+            ys = o["o-yaml"]["stdout"]
+            docy = _yaml.safe_load(ys[ys.index("\nname:"):].replace("{DIR}", "DIR"))
+            if partition_of_report(docy) != P:
+                bad.append("-o yaml document disagrees: %s vs %s" % (partition_of_report(docy), P))
+        except Exception as e:
+            bad.append("-o yaml did not contain a YAML document: %s" % e)
+        # structured yaml denotes the same data as structured json
+        try:
+            sy = _yaml.safe_load(o["s-yaml"]["stdout"].replace("{DIR}", "DIR"))
+            sj = json.loads(ref["stdout"].replace("{DIR}", "DIR"))
+            if not yaml11_eq(sj, sy):
+                bad.append("structured YAML and JSON denote different data")
+        except Exception as e:
+            bad.append("structured YAML unreadable: %s" % e)
+        # payload structured
+        try:
+            pj = json.loads(o["payload-json"]["stdout"])[0]
+            if partition_of_report(pj) != P:
+                bad.append("--payload --structured disagrees: %s vs %s" % (partition_of_report(pj), P))
+        except Exception as e:
+            bad.append("--payload --structured output unreadable: %s" % e)
+        # junit
+        try:
+            root = ET.fromstring(o["s-junit"]["stdout"])
+            tcs = list(root.iter("testcase"))
+            if len(tcs) != 1:
+                bad.append("JUnit: %d test cases for one (data, rules) pair" % len(tcs))
+            else:
+                t = tcs[0]
+                mark = "FAIL" if t.find("failure") is not None else ("ERROR" if t.find("error") is not None else ("SKIP" if (t.find("skipped") is not None or t.get("status") == "skip") else "PASS"))
+                if mark != P["status"]:
+                    bad.append("JUnit marks the case %s, file status is %s" % (mark, P["status"]))
+        except ET.ParseError as e:
+            bad.append("JUnit output is not well-formed XML: %s" % e)
+        # sarif: one result per reported failing check
+        try:
+            sar = json.loads(o["s-sarif"]["stdout"])
+            nres = sum(len(r["results"]) for r in sar["runs"])
+            want = sum(count_messages(c) for c in rep["not_compliant"]) if rep["status"] == "FAIL" else 0
+            if nres != want:
+                bad.append("SARIF has %d results, the report lists %d failing checks" % (nres, want))
+        except Exception as e:
+            bad.append("SARIF output is not well-formed JSON: %s" % e)
+        # library entry point
+        lr = lib[ri].get("report", {})
+        if "ok" in lr:
+            if partition_of_report(lr["ok"]) != P:
+                bad.append("run_checks (library) disagrees: %s vs %s" % (partition_of_report(lr["ok"]), P))
+        elif "ok_text" not in lr:
+            bad.append("run_checks (library) did not evaluate: %s" % {k: v for k, v in lr.items() if k != "ok"})
+        for b in bad:
+            res.judge_failures.append(dict(info, what="rendering/entry point changes the verdict: " + b, **{"class": "c07-" + b.split(" ")[0].strip("-:").lower()}))
+        if ri < 2:
+            res.add_sample({"rules": row["rules"][:300], "data": row["data"], "partition": P, "exit": want_exit})
+    return res
+
+
+register("C07", ["Guard.Properties.C07"], run_C07, needs_cli=True)
